@@ -120,6 +120,9 @@ fn setup_of(scn: &Value) -> Value {
     ev["units"] = norm_units(scn);
     ev["rtf"] = json!(0);
     ev["rtx"] = json!(false);
+    let (od, ot) = crate::search::rate_offsets(scn);
+    ev["od"] = json!(od);
+    ev["ot"] = json!(ot);
     // termination criterion: "default" is the exact criterion
     let t = scn["term"]["type"].as_str().unwrap_or("default");
     ev["term"] = json!({"type": if t == "default" { "exact" } else { t }, "n": scn["term"]["n"].as_i64().unwrap_or(0)});
